@@ -57,6 +57,7 @@ func (iter *combinedIterator) worker(ctx context.Context) {
 	var ok bool
 
 	for iter.chunks.Next() {
+		vpoint("cw.chunk")
 		chunk := iter.chunks.Chunk()
 
 		if iter.flatten {
@@ -69,10 +70,12 @@ func (iter *combinedIterator) worker(ctx context.Context) {
 			return
 		}
 		for iter.sample.Next() {
+			vpoint("cw.send")
 			select {
 			case iter.pipe <- documentWithMetadata{document: iter.sample.Document(), metadata: chunk.GetMetadata()}:
 				continue
 			case <-ctx.Done():
+				vpoint("cw.aborted")
 				iter.catcher.Add(errors.New("operation aborted"))
 				return
 			}
@@ -81,5 +84,6 @@ func (iter *combinedIterator) worker(ctx context.Context) {
 		iter.catcher.Add(iter.sample.Err())
 		iter.sample.Close()
 	}
+	vpoint("cw.done")
 	iter.catcher.Add(iter.chunks.Err())
 }
